@@ -13,6 +13,15 @@ initial state has the declared values in slot order, setters touch only their ow
 only their own slot, get-after-set round-trips through the unit tables (C09's bound), add accumulates
 in the feature's own unit, extension keeps existing slots.
 
+Part C: the minimal state layer of the search model (`Model/Instance.lean`: `featIndex`, `initialState`,
+`addDistance`, `addTime` over a feature list, used by C01–C05, C10, C13) is a refinement of this state
+model whenever the feature names are pairwise distinct (`Proofs/StateRefine.lean`): same slots, same
+initial state, `add_distance` / `add_time` agree on every input with the minimal layer's `none` being
+exactly the full model's errors, positional reads are `get_state_variable` / `get_delta` /
+`get_distance` / `get_time`, and a whole search step is the step written against the `StateModel` API.
+With a repeated name the layers disagree (`search_state_layer_duplicate_name_counterexample`); the
+full model is the one that follows the Rust constructors there.
+
 History (key `container/new-duplicate-key`, repaired in /repo 6da9498): `CompactOrderedHashMap::new`
 on a list with a repeated key used to keep each surviving key's enumerate position (gaps in the stored
 indices: `len = 1`, empty iteration).  `new` now inserts one by one in that case; `new_refines` below
@@ -21,6 +30,7 @@ holds for EVERY entry list, and the old witnesses are positive theorems (`new_du
 -/
 import Compass.Proofs.Container
 import Compass.Proofs.StateModel
+import Compass.Proofs.StateRefine
 import Compass.Props.C09
 
 namespace Compass
@@ -737,6 +747,266 @@ theorem new_duplicate_name_repaired :
   decide
 
 end examples
+
+/-! ## Part C — the state layer of the search model is this state model
+
+The search properties (C01–C05, C10, C13) run over `Model/Instance.lean`, whose state layer is a plain
+feature list (`Feat`, `featIndex`, `initialState`, `addDistance`, `addTime`, answers in `Option`).
+`StateRefine.toStateModel fs` is `StateModel::new` of that list (`StateRefine.toFeature`: `.dist u` ↦
+`Distance`, `.time u` ↦ `Time`, `.other` ↦ the custom floating-point feature the search harness
+builds); `StateRefine.Represents m fs` says `m` is well-formed with feature list `fs`.
+
+Hypothesis: the feature names are pairwise distinct.  It is sufficient for both constructors
+(`search_state_layer_represented`), necessary (`search_state_layer_needs_distinct_names`), and
+without it the model built from `fs` is the model of `StateRefine.normalize fs` — a repeated name keeps
+its first slot and takes its last declaration — which differs from `fs`
+(`search_state_layer_without_distinct_names`, `search_state_layer_duplicate_name_counterexample`).
+Under it the layers agree on EVERY state vector (shorter or longer than the feature list), name, value
+and unit; nothing else is assumed. -/
+
+section searchlayer
+open StateRefine
+variable {α : Type}
+
+/-- pairwise distinct names: `StateModel::new` and `StateModel::empty().extend(..)` (which succeeds)
+    both build a state model represented by the feature list -/
+theorem search_state_layer_represented (fs : List (Feat α)) (nd : (fs.map (·.name)).Nodup) :
+    Represents (toStateModel fs) fs ∧
+      ∃ m, (StateModel.empty : StateModel α).extend (toEntries fs) = .ok m ∧ Represents m fs :=
+  ⟨represents_new fs nd, represents_extend fs nd⟩
+
+/-- the hypothesis is necessary: a represented feature list has pairwise distinct names -/
+theorem search_state_layer_needs_distinct_names (m : StateModel α) (fs : List (Feat α))
+    (h : Represents m fs) : (fs.map (·.name)).Nodup := h.nodup
+
+/-- without the hypothesis: `StateModel::new` of ANY feature list is the model of the normalised list
+    (later duplicate overwrites in place), which is the list itself iff the names are distinct -/
+theorem search_state_layer_without_distinct_names (fs : List (Feat α)) :
+    Represents (toStateModel fs) (normalize fs) ∧
+      (normalize fs = fs ↔ (fs.map (·.name)).Nodup) :=
+  ⟨represents_new_normalize fs, normalize_eq_self_iff fs⟩
+
+/-- `featIndex` is `get_index`; `len` is the number of features -/
+theorem search_state_layer_refines_state_model_index (m : StateModel α) (fs : List (Feat α))
+    (hm : Represents m fs) (name : String) :
+    featIndex fs name = m.getIndex name ∧ m.len = fs.length :=
+  ⟨(getIndex_eq_featIndex hm name).symm, StateRefine.len_eq hm⟩
+
+/-- `initial_state` succeeds and is the minimal layer's `initialState` -/
+theorem search_state_layer_refines_state_model_initial_state [Lit α] [IntCodec α] [LT α]
+    [DecidableLT α] [BEq α] (m : StateModel α) (fs : List (Feat α)) (hm : Represents m fs) :
+    m.initialState = .ok (initialState fs) := initialState_eq hm
+
+section arith
+variable [Add α] [Mul α] [Div α] [Lit α]
+
+/-- `add_distance`: the minimal layer is the full model with the error forgotten; they agree on
+    success in both directions; the minimal layer's `none` is exactly an error of the full model, and
+    that error is one of: unknown name — wrong feature kind (reported whatever the state vector) —
+    distance feature whose slot is beyond the state vector (`RuntimeError` of `get_state_variable`;
+    `InvalidStateVariableIndex` cannot occur) -/
+theorem search_state_layer_refines_state_model_add_distance (m : StateModel α) (fs : List (Feat α))
+    (hm : Represents m fs) (state : List α) (name : String) (d : α) (u : DistanceUnit) :
+    addDistance fs state name d u = (m.addDistance state name d u).toOption ∧
+    (∀ s', addDistance fs state name d u = some s' ↔ m.addDistance state name d u = .ok s') ∧
+    (addDistance fs state name d u = none ↔ ∃ e, m.addDistance state name d u = .error e) ∧
+    ∀ e, m.addDistance state name d u = .error e →
+      (e = .unknownName ∧ featIndex fs name = none) ∨
+      (e = .unexpectedFeatureUnit ∧ ∃ i f, featIndex fs name = some i ∧ fs[i]? = some f ∧
+          ∀ fu, f.kind ≠ .dist fu) ∨
+      (e = .runtime ∧ ∃ i f fu, featIndex fs name = some i ∧ fs[i]? = some f ∧
+          f.kind = .dist fu ∧ state.length ≤ i) := by
+  refine ⟨addDistance_toOption hm state name d u, addDistance_some_iff hm state name d u, ?_,
+    addDistance_error_cases hm state name d u⟩
+  rw [addDistance_full hm]
+  cases addDistance fs state name d u <;> simp [lift]
+
+/-- `add_time`: likewise -/
+theorem search_state_layer_refines_state_model_add_time (m : StateModel α) (fs : List (Feat α))
+    (hm : Represents m fs) (state : List α) (name : String) (t : α) (u : TimeUnit) :
+    addTime fs state name t u = (m.addTime state name t u).toOption ∧
+    (∀ s', addTime fs state name t u = some s' ↔ m.addTime state name t u = .ok s') ∧
+    (addTime fs state name t u = none ↔ ∃ e, m.addTime state name t u = .error e) ∧
+    ∀ e, m.addTime state name t u = .error e →
+      (e = .unknownName ∧ featIndex fs name = none) ∨
+      (e = .unexpectedFeatureUnit ∧ ∃ i f, featIndex fs name = some i ∧ fs[i]? = some f ∧
+          ∀ fu, f.kind ≠ .time fu) ∨
+      (e = .runtime ∧ ∃ i f fu, featIndex fs name = some i ∧ fs[i]? = some f ∧
+          f.kind = .time fu ∧ state.length ≤ i) := by
+  refine ⟨addTime_toOption hm state name t u, addTime_some_iff hm state name t u, ?_,
+    addTime_error_cases hm state name t u⟩
+  rw [addTime_full hm]
+  cases addTime fs state name t u <;> simp [lift]
+
+/-- the statement in the form "for every feature list with pairwise distinct names", for
+    `StateModel::new`: slots, initial state, `add_distance`, `add_time` -/
+theorem search_state_layer_refines_state_model [IntCodec α] [LT α] [DecidableLT α] [BEq α]
+    (fs : List (Feat α)) (nd : (fs.map (·.name)).Nodup) :
+    (∀ name, featIndex fs name = (toStateModel fs).getIndex name) ∧
+    (toStateModel fs).initialState = .ok (initialState fs) ∧
+    (∀ state name d u, addDistance fs state name d u =
+        ((toStateModel fs).addDistance state name d u).toOption) ∧
+    (∀ state name t u, addTime fs state name t u =
+        ((toStateModel fs).addTime state name t u).toOption) := by
+  have hm := represents_new fs nd
+  exact ⟨fun name => (getIndex_eq_featIndex hm name).symm, initialState_eq hm,
+    addDistance_toOption hm, addTime_toOption hm⟩
+
+end arith
+
+/-! ### reads: every positional read of the search model is a `StateModel` accessor -/
+
+/-- `state[i]?` is `get_state_variable` of the feature in slot `i`; `next[i] − prev[i]` — what one item
+    of `cost_ops::calculate_vehicle_costs` (`CostModel.vehicleTerm`) feeds into the vehicle rate — is
+    `get_delta` of that feature -/
+theorem search_state_layer_reads_are_state_model_reads [Add α] [Sub α] [Mul α] [Lit α]
+    (m : StateModel α) (fs : List (Feat α)) (hm : Represents m fs) (cm : CostModel α)
+    (prev next : List α) (i : Nat) (f : Feat α) (hf : fs[i]? = some f) :
+    prev[i]? = (m.getStateVariable prev f.name).toOption ∧
+    cm.vehicleTerm prev next i =
+      (match (m.getDelta prev next f.name).toOption, cm.vehicleRates[i]?, cm.weights[i]? with
+        | some d, some r, some w => some (r.mapValue d * w)
+        | _, _, _ => none) :=
+  ⟨slot_read hm prev hf, vehicleTerm_getDelta hm cm prev next hf⟩
+
+/-- the slot hypotheses of the route theorems of C03 (`featIndex fs name = some i`, the entry there is
+    a distance in unit `fu`) are statements about the state model (`get_index`, `get_feature`), and
+    under them the value the route theorems speak about, `state[i]?`, is `get_distance` in the
+    feature's own unit (identity conversion, exact in any arithmetic) -/
+theorem search_state_layer_distance_slot_is_get_distance [Mul α] [Div α] [Lit α]
+    (m : StateModel α) (fs : List (Feat α)) (hm : Represents m fs) (name : String) (i : Nat)
+    (fu : DistanceUnit) :
+    ((featIndex fs name = some i ∧ (fs[i]?).map (·.kind) = some (FeatKind.dist fu)) ↔
+      (m.getIndex name = some i ∧ ∃ init, m.getFeature name = .ok (.distance fu init))) ∧
+    ((featIndex fs name = some i ∧ (fs[i]?).map (·.kind) = some (FeatKind.dist fu)) →
+      ∀ (state : List α) (x : α), state[i]? = some x ↔ m.getDistance state name fu = .ok x) := by
+  refine ⟨distSlot_iff hm name i fu, ?_⟩
+  rintro ⟨hi, hk⟩ state x
+  rw [getDistance_slot hm hi hk]
+  cases state[i]? <;> simp [DistanceUnit.convert, C09.distance_id, Factor.apply]
+
+/-- the same for the time slot and `get_time` -/
+theorem search_state_layer_time_slot_is_get_time [Mul α] [Div α] [Lit α]
+    (m : StateModel α) (fs : List (Feat α)) (hm : Represents m fs) (name : String) (i : Nat)
+    (fu : TimeUnit) :
+    ((featIndex fs name = some i ∧ (fs[i]?).map (·.kind) = some (FeatKind.time fu)) ↔
+      (m.getIndex name = some i ∧ ∃ init, m.getFeature name = .ok (.time fu init))) ∧
+    ((featIndex fs name = some i ∧ (fs[i]?).map (·.kind) = some (FeatKind.time fu)) →
+      ∀ (state : List α) (x : α), state[i]? = some x ↔ m.getTime state name fu = .ok x) := by
+  refine ⟨timeSlot_iff hm name i fu, ?_⟩
+  rintro ⟨hi, hk⟩ state x
+  rw [getTime_slot hm hi hk]
+  cases state[i]? <;> simp [TimeUnit.convert, C09.time_id, Factor.apply]
+
+/-! ### whole steps -/
+
+/-- the traversal model, the access model, one whole search step (`EdgeTraversal::forward_traversal /
+    reverse_traversal`, the `trav` field of the configured search instance), the A* estimate (the `h`
+    field) and the initial state (the `init` field) of `Model/Instance.lean` are the same functions
+    written against the `StateModel` API (`StateRefine.traverseSM`, `accessSM`, `edgeTraversalSM`,
+    `modelEstimateSM`: `state_model.add_distance(..)` / `add_time(..)` with the error forgotten) -/
+theorem search_step_is_state_model_step [Add α] [Sub α] [Mul α] [Div α] [LT α] [LE α]
+    [DecidableLT α] [DecidableLE α] [BEq α] [Lit α] [IntCodec α]
+    (c : Config α) (m : StateModel α) (hm : Represents m c.feats) :
+    (∀ e st, c.trav.traverse c.feats c.edges e st = traverseSM c.trav m c.edges e st) ∧
+    (∀ pe ne st, c.access.access c.feats pe ne st = accessSM c.access m pe ne st) ∧
+    (∀ e last st, c.inst.trav e last st = edgeTraversalSM c m e last st) ∧
+    (∀ v st, c.inst.h v st = modelEstimateSM c m v st) ∧
+    m.initialState = .ok c.inst.init :=
+  ⟨fun e st => traverse_eq hm c.trav c.edges e st, fun pe ne st => access_eq hm c.access pe ne st,
+    fun e last st => edgeTraversal_eq hm e last st, fun v st => modelEstimate_eq hm v st,
+    initialState_eq hm⟩
+
+end searchlayer
+
+/-! ### non-vacuity of Part C, and the repeated-name disagreement -/
+
+section searchexamples
+open StateRefine
+
+/-- time in minutes, an unrelated custom slot, distance in miles (the features of
+    `RouteSums.speedExample`) -/
+def searchFeats : List (Feat ℚ) :=
+  [⟨"time", .time .minutes, 5⟩, ⟨"spare", .other, 7⟩, ⟨"distance", .dist .miles, 1⟩]
+
+/-- the hypothesis holds, both layers compute the same concrete states (a distance given in
+    kilometres lands in the miles slot, a time given in seconds in the minutes slot), and each `none`
+    of the minimal layer is the error of the full model that the theorems name: unknown name, wrong
+    kind (also when the slot is beyond the state vector: the kind is checked first), state vector too
+    short -/
+example : (searchFeats.map (·.name)).Nodup ∧ Represents (toStateModel searchFeats) searchFeats ∧
+    (toStateModel searchFeats).initialState = .ok (initialState searchFeats) ∧
+    initialState searchFeats = [5, 7, 1] ∧
+    (∃ s, addDistance searchFeats [5, 7, 1] "distance" 3 .kilometers = some s ∧
+      (toStateModel searchFeats).addDistance [5, 7, 1] "distance" 3 .kilometers = .ok s ∧
+      s = [5, 7, 1 + DistanceUnit.kilometers.convert .miles 3] ∧ s ≠ [5, 7, 1] ∧ s ≠ [5, 7, 4]) ∧
+    (∃ s, addTime searchFeats [5, 7, 1] "time" 90 .seconds = some s ∧
+      (toStateModel searchFeats).addTime [5, 7, 1] "time" 90 .seconds = .ok s ∧
+      s = [5 + TimeUnit.seconds.convert .minutes 90, 7, 1] ∧ s ≠ [5, 7, 1] ∧ s ≠ [95, 7, 1]) ∧
+    (addDistance searchFeats [5, 7, 1] "nope" 3 .miles = none ∧
+      (toStateModel searchFeats).addDistance [5, 7, 1] "nope" 3 .miles = .error .unknownName) ∧
+    (addDistance searchFeats [5, 7, 1] "time" 3 .miles = none ∧
+      (toStateModel searchFeats).addDistance [5, 7, 1] "time" 3 .miles = .error .unexpectedFeatureUnit) ∧
+    (addDistance searchFeats [5] "spare" 3 .miles = none ∧
+      (toStateModel searchFeats).addDistance [5] "spare" 3 .miles = .error .unexpectedFeatureUnit) ∧
+    (addDistance searchFeats [5, 7] "distance" 3 .miles = none ∧
+      (toStateModel searchFeats).addDistance [5, 7] "distance" 3 .miles = .error .runtime) ∧
+    (toStateModel searchFeats).getDistance [5, 7, 1, 9] "distance" .miles = .ok 1 := by
+  have nd : (searchFeats.map (·.name)).Nodup := by decide
+  refine ⟨nd, represents_new _ nd, by decide +kernel, by decide +kernel,
+    ⟨_, rfl, by decide +kernel, by decide +kernel, by decide +kernel, by decide +kernel⟩,
+    ⟨_, rfl, by decide +kernel, by decide +kernel, by decide +kernel, by decide +kernel⟩,
+    by decide +kernel, by decide +kernel, by decide +kernel, by decide +kernel, by decide +kernel⟩
+
+/-- three edges under the speed-table model with turn delays (`RouteSums.speedExample`, weight
+    factor and cost model as there) -/
+def searchConfig : Config ℚ where
+  nV := 4
+  edges := [⟨0, 1, 1000⟩, ⟨1, 2, 500⟩, ⟨2, 3, 2000⟩]
+  outAdj := [[0], [1], [2], []]
+  inAdj := [[], [0], [1], [2]]
+  feats := searchFeats
+  trav := .speed .kilometersPerHour .kilometers .hours 120 [36, 18, 72]
+  access := .turnDelay .seconds [(0, none), (90, none), (90, some 90)]
+    [some 1, some 2, some 3, some 4, some 5, some 6, some 7, some 8]
+  cost := { indices := [0, 2], weights := [1, 1, 1], vehicleRates := [.raw, .raw, .raw],
+            networkRates := [.zero, .zero, .zero], agg := .sum }
+  frontier := []
+  term := .combined []
+  reverse := false
+  gc := []
+  wf := some 0
+
+/-- the state after a step, when both formulations succeed with the same answer and the state moved -/
+def sameProgress (a b : Except ErrKind (ℚ × ℚ × List ℚ)) (s0 : List ℚ) : Option (List ℚ) :=
+  match a, b with
+  | .ok x, .ok y => if x.1 = y.1 ∧ x.2.1 = y.2.1 ∧ x.2.2 = y.2.2 ∧ x.2.2 ≠ s0 then some x.2.2 else none
+  | _, _ => none
+
+/-- a whole search step succeeds, changes the state, and is the step over `StateModel::new` of the
+    features: the first edge from the initial state, then the second edge with the turn from the first
+    (an instance of `search_step_is_state_model_step`, evaluated on both sides) -/
+example : Represents (toStateModel searchFeats) searchConfig.feats ∧
+    ((sameProgress (edgeTraversal searchConfig 0 none (initialState searchFeats))
+        (edgeTraversalSM searchConfig (toStateModel searchFeats) 0 none (initialState searchFeats))
+        (initialState searchFeats)).bind fun s1 =>
+      sameProgress (edgeTraversal searchConfig 1 (some 0) s1)
+        (edgeTraversalSM searchConfig (toStateModel searchFeats) 1 (some 0) s1) s1).isSome = true :=
+  ⟨represents_new _ (by decide), by decide +kernel⟩
+
+/-- feature names repeated: the two layers genuinely disagree (and the full model is the one that
+    follows `StateModel::new`: first position, last declaration, one slot).  The minimal layer keeps
+    two slots, initial state `[1, 2]`, and accumulates `"d"` in miles; the full model has one slot,
+    initial state `[2]`, and accumulates in metres. -/
+theorem search_state_layer_duplicate_name_counterexample :
+    let fs : List (Feat ℚ) := [⟨"d", .dist .miles, 1⟩, ⟨"d", .dist .meters, 2⟩]
+    initialState fs = [1, 2] ∧ (toStateModel fs).initialState = .ok [2] ∧
+    addDistance fs [0] "d" 5 .meters = some [DistanceUnit.meters.convert .miles 5] ∧
+    (toStateModel fs).addDistance [0] "d" 5 .meters = .ok [5] ∧
+    addDistance fs [0] "d" 5 .meters ≠ ((toStateModel fs).addDistance [0] "d" 5 .meters).toOption := by
+  decide +kernel
+
+end searchexamples
 
 end C11
 end Compass
